@@ -152,6 +152,32 @@ fn dbg<E: std::fmt::Debug>(e: E) -> String {
     format!("{e:?}")
 }
 
+/// what an observer of the service sees through a live handle: the static config and the nodes
+/// that are registered as users of the service
+fn describe<F: iceoryx2::service::port_factory::PortFactory>(h: &F) -> String
+where
+    F::StaticConfig: std::fmt::Debug,
+{
+    let mut users: Vec<&str> = Vec::new();
+    let r = h.nodes(|n| {
+        users.push(match n {
+            // no ids: they differ between executions and a replay has to reproduce the text
+            NodeState::Alive(_) => "alive",
+            NodeState::Dead(_) => "dead",
+            NodeState::Inaccessible(_) => "inaccessible",
+            NodeState::Undefined(_) => "undefined",
+        });
+        CallbackProgression::Continue
+    });
+    users.sort();
+    format!("{:?} users={:?} ({:?})", h.static_config(), users, r)
+}
+
+/// absolute path of a flatbuffer schema file that belongs to the harness
+fn schema(name: &str) -> FilePath {
+    FilePath::new(format!("/verif/seq/h_lifecycle/schemas/{name}").as_bytes()).expect("schema path")
+}
+
 type Row<S> = (String, Box<dyn Fn(&World<S>) -> Result<(), Fail>>);
 
 struct World<S: Service + 'static> {
@@ -346,15 +372,25 @@ impl<S: Service + 'static> World<S> {
     ) -> Result<(), Fail> {
         let site = format!("table: {label}");
         let (creator, before) = create(&self.nodes[0], &self.name).map_err(|e| Fail::new("c06-table", site.clone(), format!("create failed: {e}")))?;
+        let resources = |w: &Self| -> Vec<String> { if w.cfg.variant.is_ipc() { w.domain.canon(&w.domain.leftovers()) } else { Vec::new() } };
+        let resources_before = resources(self);
         let r = open(&self.nodes[1], &self.name);
         let got = r.as_ref().map(|_| ()).map_err(|e| e.clone());
         let want = expected.map_err(|e| e.to_string());
         ensure!(got == want, "c06-table", site, "open returned {:?}, documented: {:?}", got, want);
+        if got.is_err() {
+            // a refused open leaves the files and shared-memory objects of the domain as they were
+            let resources_after = resources(self);
+            ensure!(resources_after == resources_before, "c06-table-untouched", site, "the refused open changed the resources of the service from {:?} to {:?}", resources_before, resources_after);
+        }
         // untouched
         let exists = S::does_exist(&self.name, &self.domain.config, self.pattern());
         ensure!(exists == Ok(true), "c06-table-untouched", site, "does_exist = {:?} after the open", exists);
+        // an accepted opener is a user of the service while it lives: compare the user list only
+        // after a refused open
         let after = describe(&creator);
-        ensure!(after == before, "c06-table-untouched", site, "static config changed from {} to {}", before, after);
+        let cut = |d: &str| -> String { if got.is_err() { d.to_string() } else { d.split(" users=").next().unwrap_or(d).to_string() } };
+        ensure!(cut(&after) == cut(&before), "c06-table-untouched", site, "static config / users changed from {} to {}", before, after);
         drop(r);
         let exists = S::does_exist(&self.name, &self.domain.config, self.pattern());
         ensure!(exists == Ok(true), "c06-premature-removal", site, "does_exist = {:?} after the opener was dropped", exists);
@@ -380,7 +416,7 @@ macro_rules! knob_rows {
                         |n, name| {
                             let $b = n.service_builder(name);
                             $base.$method(2).create().map(|h| {
-                                let d = format!("{:?}", h.static_config());
+                                let d = describe(&h);
                                 (h, d)
                             }).map_err(dbg)
                         },
@@ -388,7 +424,7 @@ macro_rules! knob_rows {
                             let $b = n.service_builder(name);
                             $base.$method(req).open().map_err(dbg)
                         },
-                        |h| format!("{:?}", h.static_config()),
+                        |h| describe(h),
                         exp,
                     )
                 }),
@@ -409,7 +445,7 @@ macro_rules! pair_row {
                     |n, name| {
                         let $b = n.service_builder(name);
                         $create.create().map(|h| {
-                            let d = format!("{:?}", h.static_config());
+                            let d = describe(&h);
                             (h, d)
                         }).map_err(dbg)
                     },
@@ -417,7 +453,7 @@ macro_rules! pair_row {
                         let $b = n.service_builder(name);
                         $open.open().map_err(dbg)
                     },
-                    |h| format!("{:?}", h.static_config()),
+                    |h| describe(h),
                     $exp,
                 )
             }),
@@ -442,6 +478,13 @@ fn rows_pubsub<S: Service + 'static>() -> Vec<Row<S>> {
     pair_row!(rows, "payload type: creator u64, opener i64", Err("IncompatibleTypes"), |b| b.publish_subscribe::<u64>(), b.publish_subscribe::<i64>());
     pair_row!(rows, "payload type: creator u64, opener [u64]", Err("IncompatibleTypes"), |b| b.publish_subscribe::<u64>(), b.publish_subscribe::<[u64]>());
     pair_row!(rows, "user header: creator (), opener u64", Err("IncompatibleTypes"), |b| b.publish_subscribe::<u64>(), b.publish_subscribe::<u64>().user_header::<u64>());
+    // flatbuffer payloads: the type definition (schema) is a resource of the service that is opened
+    // and compared after the static configuration was accepted
+    type Fb = Flatbuffer<u64>;
+    pair_row!(rows, "flatbuffer schema: creator A, opener A", Ok(()), |b| b.publish_subscribe::<Fb>().flatbuffer_schema_path(&schema("position_a.fbs")), b.publish_subscribe::<Fb>().flatbuffer_schema_path(&schema("position_a.fbs")));
+    pair_row!(rows, "flatbuffer schema: creator A, opener B", Err("IncompatibleTypes"), |b| b.publish_subscribe::<Fb>().flatbuffer_schema_path(&schema("position_a.fbs")), b.publish_subscribe::<Fb>().flatbuffer_schema_path(&schema("position_b.fbs")));
+    pair_row!(rows, "flatbuffer schema: creator A, opener names a schema file that does not exist", Err("UnableToAcquireTypeDefinition"), |b| b.publish_subscribe::<Fb>().flatbuffer_schema_path(&schema("position_a.fbs")), b.publish_subscribe::<Fb>().flatbuffer_schema_path(&schema("missing.fbs")));
+    pair_row!(rows, "flatbuffer payload: creator flatbuffer, opener u64", Err("IncompatibleTypes"), |b| b.publish_subscribe::<Fb>().flatbuffer_schema_path(&schema("position_a.fbs")), b.publish_subscribe::<u64>());
     pair_row!(
         rows,
         "payload alignment: creator default (8), opener requires 64",
@@ -579,6 +622,28 @@ fn rows_reqres<S: Service + 'static>() -> Vec<Row<S>> {
         Err("IncompatibleRequestOrResponseType"),
         |b| b.request_response::<u64, u64>(),
         b.request_response::<u64, u64>().response_user_header::<u64>()
+    );
+    type Fb = Flatbuffer<u64>;
+    pair_row!(
+        rows,
+        "flatbuffer schemas: creator A/A, opener A/A",
+        Ok(()),
+        |b| b.request_response::<Fb, Fb>().request_flatbuffer_schema_path(&schema("position_a.fbs")).response_flatbuffer_schema_path(&schema("position_a.fbs")),
+        b.request_response::<Fb, Fb>().request_flatbuffer_schema_path(&schema("position_a.fbs")).response_flatbuffer_schema_path(&schema("position_a.fbs"))
+    );
+    pair_row!(
+        rows,
+        "flatbuffer schemas: creator A/A, opener B/A",
+        Err("IncompatibleRequestOrResponseType"),
+        |b| b.request_response::<Fb, Fb>().request_flatbuffer_schema_path(&schema("position_a.fbs")).response_flatbuffer_schema_path(&schema("position_a.fbs")),
+        b.request_response::<Fb, Fb>().request_flatbuffer_schema_path(&schema("position_b.fbs")).response_flatbuffer_schema_path(&schema("position_a.fbs"))
+    );
+    pair_row!(
+        rows,
+        "flatbuffer schemas: creator A/A, opener A/B",
+        Err("IncompatibleRequestOrResponseType"),
+        |b| b.request_response::<Fb, Fb>().request_flatbuffer_schema_path(&schema("position_a.fbs")).response_flatbuffer_schema_path(&schema("position_a.fbs")),
+        b.request_response::<Fb, Fb>().request_flatbuffer_schema_path(&schema("position_a.fbs")).response_flatbuffer_schema_path(&schema("position_b.fbs"))
     );
     pair_row!(
         rows,
